@@ -26,6 +26,9 @@ func (k msgServer) SwapExactAmountIn(ctx context.Context, msg *types.MsgSwapExac
 		return nil, errorsmod.Wrapf(types.ErrInvalidRoute, "invalid route: %s", err)
 	}
 
+	if msg.AmountIn.IsNil() || msg.MinAmountOut.IsNil() {
+		return nil, errorsmod.Wrap(types.ErrInvalidAmount, "amount in and min amount out cannot be empty")
+	}
 	if !msg.AmountIn.IsPositive() {
 		return nil, errorsmod.Wrapf(types.ErrInvalidAmount, "amount in must be positive: %s", msg.AmountIn)
 	}
